@@ -11,6 +11,7 @@ import (
 	"math/rand"
 	"os"
 	"reflect"
+	"strconv"
 	"strings"
 
 	"github.com/Tnze/go-mc/nbt"
@@ -557,6 +558,76 @@ func genC02(c *Ctx) {
 		if t.Kind() == reflect.Struct {
 			c02FieldRead(c, i%2 == 0, descs[i], []byte{10, 1, 0, 3, 'z', 'z', 'z', 5, 0})
 		}
+	}
+	// --- outside the model's universe: recursive pointer types, maps with other keys than strings ---
+	for _, variant := range []string{"rec-zero", "rec-list", "rec-nilptr", "rec-slice", "rec-map", "rec-mutual", "rec-omitempty",
+		"rec-omitempty-nil", "map-int", "map-stringer", "map-empty-int"} {
+		c02Odd(c, variant)
+	}
+	// --- histories: 2–6 encodings whose results are all held and looked at only after the last call ---
+	apis := []string{"marshal", "enc", "encshared"}
+	carrierPos := []string{"raw", "dyn", "sl<raw>", "map<raw>", "st<>{52/e/72///raw|4e/e////i32}", "st<>{44/e/64///dyn|52/e/72///ptr<raw>}", "ptr<raw>", "sl<dyn>"}
+	carrierVal := func(pos, ref string) string {
+		switch pos {
+		case "raw", "dyn":
+			return ref
+		case "sl<raw>", "sl<dyn>":
+			return "[" + ref + "," + ref + "]"
+		case "map<raw>":
+			return "{6b:" + ref + "}"
+		case "st<>{52/e/72///raw|4e/e////i32}":
+			return "(" + ref + ";00000007)"
+		case "st<>{44/e/64///dyn|52/e/72///ptr<raw>}":
+			return "(" + ref + ";&" + ref + ")"
+		default:
+			return "&" + ref
+		}
+	}
+	for h := 0; h < c.N(300, 6000); h++ {
+		n := 2 + c.R.Intn(5)
+		var steps [][2]string
+		var plain []int // steps a carrier may be built from: compound-rooted, so that every position accepts them
+		for i := 0; i < n; i++ {
+			if len(plain) > 0 && c.R.Intn(3) == 0 {
+				pos := carrierPos[c.R.Intn(len(carrierPos))]
+				ref := "@" + strconv.Itoa(plain[c.R.Intn(len(plain))])
+				steps = append(steps, [2]string{pos, carrierVal(pos, ref)})
+				continue
+			}
+			k := c.R.Intn(len(types))
+			// shrinking and growing: the depth of the generated value varies from step to step
+			v := cg.value(types[k], []int{0, 1, 3, 4}[c.R.Intn(4)])
+			steps = append(steps, [2]string{descs[k], c02ShowStr(v)})
+			// a later step may build carriers from this result if it is a document (compound-rooted, so that every
+			// position accepts it): checked here on an encoding of our own — the zero RawMessage / dynbt.Value inside
+			// a value, for instance, make its encoding no document
+			for t := types[k]; ; t = t.Elem() {
+				if t.Kind() != reflect.Pointer {
+					if (t.Kind() == reflect.Struct && t != c02RawT && t != c02DynT) || t.Kind() == reflect.Map {
+						var dv dynbt.Value
+						okDoc := false
+						guard(func() {
+							b, err := nbt.Marshal(v.Interface())
+							okDoc = err == nil && nbt.Unmarshal(b, &dv) == nil
+						})
+						if okDoc {
+							plain = append(plain, i)
+						}
+					}
+					break
+				}
+			}
+		}
+		c02Hist(c, apis[h%3], []string{"val", "ptr"}[(h/3)%2], steps)
+	}
+	// the same value twice, a long one then short ones, a short one then a long one
+	long := "[" + strings.Repeat("00000001,", 199) + "00000002]"
+	for _, api := range apis {
+		c02Hist(c, api, "val", [][2]string{{"sl<i32>", long}, {"sl<i32>", "[00000003]"}, {"i8", "7f"}})
+		c02Hist(c, api, "val", [][2]string{{"i8", "01"}, {"sl<i32>", long}, {"i8", "02"}})
+		c02Hist(c, api, "ptr", [][2]string{{"map<i32>", "{61:00000001}"}, {"map<i32>", "{61:00000001}"}})
+		c02Hist(c, api, "val", [][2]string{{"map<str>", "{6b:'6162}"}, {"raw", "@0"}, {"st<>{52/e/72///raw|4e/e////i32}", "(@0;00000007)"}, {"sl<raw>", "[@0,@1]"}, {"map<i8>", "{7a:05}"}})
+		c02Hist(c, api, "val", [][2]string{{"st<>{41/e/61///sl<i64>}", "([0000000000000001,0000000000000002,0000000000000003])"}, {"dyn", "@0"}, {"raw", "@0"}, {"i64", "0000000000000009"}})
 	}
 	// --- carriers re-encode what they decoded, byte for byte, at the root, in a field, in a map, in a list ---
 	for i := 0; i < c.N(400, 20000); i++ {
